@@ -21,12 +21,38 @@ def load(pid=None):
     return out
 
 
-def make_copy(edits, repo=None):
+SEEDED = os.path.join(factgen.VERIF, "seeded")
+
+
+def load_seeded(pid):
+    """Independently written breaking changes (seeded/<name>/patch.diff) that this property's check reports."""
+    out = []
+    if not os.path.isdir(SEEDED):
+        return out
+    for d in sorted(os.listdir(SEEDED)):
+        mp = os.path.join(SEEDED, d, "meta.json")
+        pp = os.path.join(SEEDED, d, "patch.diff")
+        if not (os.path.isfile(mp) and os.path.isfile(pp)):
+            continue
+        with open(mp) as fh:
+            m = json.load(fh)
+        if pid in m.get("checks_reporting", []):
+            out.append({"name": "seeded:" + d, "property": pid, "rule": None, "key": "", "patch": pp})
+    return out
+
+
+def make_copy(edits, repo=None, patch=None):
     repo = repo or factgen.REPO
     tmp = tempfile.mkdtemp(prefix="elvis-variant-")
     dst = os.path.join(tmp, "sim")
     subprocess.check_call(["rsync", "-a", "--exclude", "target", "--exclude", "*.data", "--exclude", "*.data.old",
                            "--exclude", "*.svg", "--exclude", "*.perf", os.path.join(repo, "sim") + "/", dst + "/"])
+    if patch:
+        # a unified diff with paths relative to the repository root (sim/...)
+        r = subprocess.run(["patch", "-p1", "-s", "-d", tmp, "-i", patch], capture_output=True, text=True)
+        if r.returncode != 0:
+            shutil.rmtree(tmp, ignore_errors=True)
+            raise StaleVariant("patch does not apply: %s" % (r.stdout + r.stderr)[:200])
     for e in edits:
         p = os.path.join(dst, e["file"])
         with open(p) as f:
@@ -48,7 +74,7 @@ class StaleVariant(Exception):
 def run_variant(v, verbose=False):
     """Returns (status, message): status in caught|missed|stale|broken|silent-ok."""
     try:
-        tmp = make_copy(v["edits"])
+        tmp = make_copy(v.get("edits", []), patch=v.get("patch"))
     except StaleVariant as e:
         return "stale", str(e)
     try:
